@@ -15,7 +15,18 @@ pub fn format_parse_error(input: &str, err: nom::Err<NomError<&str>>) -> String 
     match err {
         nom::Err::Error(e) | nom::Err::Failure(e) => {
             let error_pos = e.input;
-            let offset = input.len() - error_pos.len();
+            // The reported slice need not be a suffix of `input` (a prefixed name
+            // reports the offending part of its prefix): locate it by address and
+            // fall back to the distance from the end; never leave a char boundary.
+            let start = (error_pos.as_ptr() as usize).wrapping_sub(input.as_ptr() as usize);
+            let mut offset = if start <= input.len() {
+                start
+            } else {
+                input.len().saturating_sub(error_pos.len())
+            };
+            while !input.is_char_boundary(offset) {
+                offset -= 1;
+            }
             
             // Calculate line and column numbers
             let mut line_no = 1;
